@@ -6,6 +6,10 @@ import ColaVerif.Model.KrylovExact
 Line-protocol driver of C09 (matrix functions).  One JSON case per input line:
 `{"id":…, "op":<tree>, "fn":"exp"|"log"|"sqrt"|"isqrt"|"pow"|"apply", "alpha":<rational>,
   "ufn":"exp"|"log"|"cube"|"poly", "alg":"none"|"auto"|"eigh"|"eig"|"lanczos"|"arnoldi"}`.
+Optional fields `"x"` (the operand, exact), `"ktol"`, `"kiters"` (tolerance / `max_iters` of the algorithm object), `"dy"`
+(the tree carries doubles as dyadic rationals): with them the driver DECIDES the recorded clauses `krylov-zero-column`
+(`UnOp.zeroFibreClause`, Model/Unary.lean) and `krylov-batch-unequal-exhaustion` (`KrylovExact.unequalExhaustion`,
+Model/KrylovExact.lean; `stop_steps` = the steps of the columns run alone) and lists them in `clauses`.
 Answer: the plan of the returned operator (rule model), the `pow` decision, the clauses, and — on the
 exact-arithmetic subset (no base case in the plan, the scalar function exactly representable on
 every argument) — the CODE value (the matrix `den` of the planned operator `UnOp.toOp`; that
@@ -258,23 +262,57 @@ def handle (j : Json) : E String := do
         pure (g, applyUnary g.total alg A, "n/a")
     | s => throw s!"fn {s}"
   let raise := match U.firstRaise with | some e => "\"" ++ e ++ "\"" | none => "null"
-  let clauses : List String := []
+  -- the operand (exact: integers / dyadic rationals of the doubles), `tol`, `max_iters` of the algorithm object: only sent
+  -- for the cases whose clauses are decided here (`dy`: the tree carries the doubles as dyadic rationals, and the exact
+  -- CODE / SPEC values are not wanted)
+  let xs ← match j.getObjVal? "x" with
+    | .ok (.null) => pure none
+    | .ok xj => do pure (some (← jMat xj))
+    | .error _ => pure none
+  let ktol ← match j.getObjVal? "ktol" with
+    | .ok (.null) => pure none
+    | .ok q => do pure (some (← jQ q))
+    | .error _ => pure none
+  let kiters ← match j.getObjVal? "kiters" with
+    | .ok (.null) => pure none
+    | .ok q => do pure (some (← jNat q))
+    | .error _ => pure none
+  let dy := match j.getObjVal? "dy" with | .ok (.bool b) => b | _ => false
+  -- clause `krylov-zero-column`: a Krylov member of the Kronecker plan receives an exactly zero fibre of the operand
+  let zeroCol : Bool := match U, A.core, xs with
+    | .kron Us, .kron Ms, some X =>
+        Us.length == Ms.length && UnOp.zeroFibreClause Us (Ms.map (·.rows)) ((X.getD 0 #[]).size) (matF X)
+    | _, _, _ => false
+  -- clause `krylov-batch-unequal-exhaustion`: the plan is ONE Krylov operator and the columns of the operand, run alone
+  -- under the relative stopping rule (exact arithmetic on the exact inputs), stop at different steps
+  let (unequal, steps) : Bool × List Nat := match U, xs, ktol, kiters with
+    | .base k _ A', some X, some tol, some mi =>
+        let ncols := (X.getD 0 #[]).size
+        if (k == .lanczos || k == .arnoldi) && A'.rows == A'.cols && X.size == A'.rows then
+          let n := A'.rows
+          let Da := KrylovExact.toRows n (evalOp false A').f
+          let cols := (List.range ncols).map fun c => (Array.ofFn (n := n) fun i => (X.getD i.val #[]).getD c 0)
+          KrylovExact.unequalExhaustion n Da cols (min mi n) (tol * tol)
+        else (false, [])
+    | _, _, _, _ => (false, [])
+  let clauses : List String :=
+    (if zeroCol then ["krylov-zero-column"] else []) ++ (if unequal then ["krylov-batch-unequal-exhaustion"] else [])
   let square := A.rows == A.cols
   let coeffs := f.polyCoeffs
-  let exact := U.ok && square && invsOk coeffs.isSome U && U.fArgs.all (fun z => (f.opt z).isSome) &&
+  let exact := !dy && U.ok && square && invsOk coeffs.isSome U && U.fArgs.all (fun z => (f.opt z).isSome) &&
     (!U.needsOracle || krylovChecks U)
   let B := U.toOp (exactParams coeffs)
   let kmodel := exact && !(krylovGrades U).isEmpty
   let grades := "[" ++ ",".intercalate ((krylovGrades U).map (fun g => "[" ++ ",".intercalate (g.map toString) ++ "]")) ++ "]"
   let code := if exact then showMat B.rows B.cols (evalOp true B).f else "null"
-  let spec := if square then
+  let spec := if square && !dy then
       match specFn f A.rows (evalOp false A).f with
       | some m => showMat A.rows A.rows (forceV A.rows A.rows m).f
       | none => "null"
     else "null"
   pure ("{\"id\":" ++ id.compress ++ s!",\"rows\":{A.rows},\"cols\":{A.cols},\"dtype\":\"{A.dtype.toString}\",\"wf\":{A.wf},\"psd\":{A.isa .psd},\"selfadjoint\":{A.isa .selfAdjoint}"
     ++ ",\"plan\":" ++ planJson U ++ ",\"powplan\":\"" ++ pp ++ "\",\"raise\":" ++ raise
-    ++ ",\"clauses\":" ++ showStrs clauses ++ ",\"op_clauses\":" ++ showStrs B.clauses ++ s!",\"needs_oracle\":{U.needsOracle},\"exact\":{exact},\"krylov_model\":{kmodel},\"krylov_grades\":{grades}"
+    ++ ",\"clauses\":" ++ showStrs clauses ++ ",\"stop_steps\":[" ++ ",".intercalate (steps.map toString) ++ "]" ++ ",\"op_clauses\":" ++ showStrs B.clauses ++ s!",\"needs_oracle\":{U.needsOracle},\"exact\":{exact},\"krylov_model\":{kmodel},\"krylov_grades\":{grades}"
     ++ ",\"code\":" ++ code ++ ",\"spec\":" ++ spec ++ "}")
 
 def main : IO Unit := driverMain handle
